@@ -151,8 +151,7 @@ class Unit(HookHost):
             in_profile = pre_processor.solve(in_profile)
 
         self.in_profile = self.InProfile(self, in_profile)
-        if not self.out_profile:
-            self.out_profile = self.OutProfile(self, in_profile)
+        self.out_profile = self.OutProfile(self, in_profile)
 
     def __init_subclass__(cls, **kwargs):
         cls.pre_processors = []
